@@ -113,11 +113,14 @@ struct World {
     /// into a fresh edition by closeForUpdating() since the slice was last handed out: from then
     /// on the slice belongs to two (or more) independently locked anchors -- the known finding
     std::vector<int> suffixOfStaleGen;
+    /// chains that reference a slice by the harness's own books: +1 when a writer takes it, +1 for every edition that
+    /// closeForUpdating() splices it into, -1 when the map frees it; a sound map never lets this exceed 1
+    std::vector<int> sliceRefs;
     Stats st;
     alignas(64) unsigned char fakeEntry[KeyCount][sizeof(StoreEntry)];
     uint64_t keys[KeyCount][2];
 
-    explicit World(const Params &params) : p(params), sliceTag(SliceLimit, 0), genOf(SliceLimit, -1), writerOf(SliceLimit, -1), writerAppending(SliceLimit, 0), suffixOfStaleGen(SliceLimit, -1)
+    explicit World(const Params &params) : p(params), sliceTag(SliceLimit, 0), genOf(SliceLimit, -1), writerOf(SliceLimit, -1), writerAppending(SliceLimit, 0), suffixOfStaleGen(SliceLimit, -1), sliceRefs(SliceLimit, 0)
     {
         memset(fakeEntry, 0, sizeof fakeEntry);
         for (int k = 0; k < KeyCount; ++k) {
@@ -191,6 +194,7 @@ struct World {
                                    "slice " + std::to_string(s) + " handed to P" + std::to_string(me) + " while P" + std::to_string(r.proc) + " reads anchor " + std::to_string(r.fileno) + " generation " + std::to_string(r.gen));
         sliceTag[s] = nextTag++;
         suffixOfStaleGen[s] = -1;
+        ++sliceRefs[s];
         return s;
     }
 
@@ -207,8 +211,9 @@ struct World {
         // later verdict would only describe the wreckage, so the run fails here, at the root event.  Seen when a second updater
         // splices the suffix of an edition whose (shared) suffix slices were freed meanwhile.
         if (std::find(pool.begin(), pool.end(), s) != pool.end())
-            Sched::failRun(suffixOfStaleGen[s] >= 0 ? "update-shared-slice-freed-twice" : "slice-freed-twice",
+            Sched::failRun(suffixOfStaleGen[s] >= 0 || sliceRefs[s] >= 1 ? "update-shared-slice-freed-twice" : "slice-freed-twice",
                            "slice " + std::to_string(s) + " freed by P" + std::to_string(Sched::self()) + " although it is free already");
+        if (sliceRefs[s] > 0) --sliceRefs[s];
         sliceTag[s] = 0; // suffixOfStaleGen[s] is kept until the slice is handed out again
         pool.push_back(s);
     }
@@ -467,7 +472,7 @@ struct World {
             genSuffixShared[g] = 1;
             for (const auto &r : readers)
                 if (r.proc == me && r.fileno == staleNo)
-                    for (size_t i = 1; i < r.chain.size(); ++i) suffixOfStaleGen[r.chain[i].first] = staleGen;
+                    for (size_t i = 1; i < r.chain.size(); ++i) { suffixOfStaleGen[r.chain[i].first] = staleGen; ++sliceRefs[r.chain[i].first]; }
         }
         verifyAndForget(me, staleNo);
         writerOf[freshNo] = -1;
